@@ -82,7 +82,8 @@ flags need the repaired `dryoc_mlock` (`c.undo`), or a region that is not `NoAcc
 theorem lock_err_cleans {c : Cfg} (hP : 0 < c.P) (hw : c.wipe = true) {s : State} (h : Inv c s)
     {i : Nat} {sl : Slot} (hi : s.slots[i]? = some sl) (hg : sl.gone = false)
     (he : (step c s ⟨.lock, i⟩).1 = .err)
-    (hna : c.undo = true ∨ (pmOf sl.o.st).perm ≠ .none ∨ sl.o.v.len = 0) :
+    (hna : c.undo = true ∨ ((pmOf sl.o.st).perm ≠ .none ∧ s.m.oracle (s.m.cnt + 1) ≠ .failFlagged) ∨
+      sl.o.v.len = 0) :
     (step c s ⟨.lock, i⟩).2.slots[i]? = some { sl with gone := true } ∧
     (step c s ⟨.lock, i⟩).2.m.rel = relOf sl.o.v.cap ∧
     (∀ p, inBlock c.P sl.o.v p →
@@ -126,6 +127,85 @@ theorem lock_err_cleans {c : Cfg} (hP : 0 < c.P) (hw : c.wipe = true) {s : State
     have hflag := dryocMlock_fail_flag hP (m := (resetRel s).m) g hna hf1
     rw [hflag] at gm
     exact (gm.ok _ List.mem_cons_self).all_unlocked rfl hp
+
+/-- WITHOUT the undo `munlock` (`c.undo = false`) a `failFlagged` answer — the kernel flags the pages, then fails —
+makes `lock` answer `err`, consume the region, and leave every data page of it flagged locked -/
+theorem lock_failFlagged_leaks {c : Cfg} (hP : 0 < c.P) (hu : c.undo = false) {s : State} (hrec : RecOK s)
+    {i : Nat} {sl : Slot} (hi : s.slots[i]? = some sl) (hg : sl.gone = false)
+    (hus : isUnlockedSt sl.o.st = true) (hl : 0 < sl.o.v.len)
+    (hor : s.m.oracle (s.m.cnt + 1) = .failFlagged) :
+    (step c s ⟨.lock, i⟩).1 = .err ∧
+    (step c s ⟨.lock, i⟩).2.slots[i]? = some { sl with gone := true } ∧
+    ∀ p, sl.o.v.base + 1 ≤ p → p < sl.o.v.base + 1 + pagesOf c.P sl.o.v.len →
+      (step c s ⟨.lock, i⟩).2.m.k.locked p = true := by
+  have hrcu : (recOfLock sl.o).1 = .unlocked := by
+    unfold recOfLock
+    cases hst : sl.o.st with
+    | plain => rfl
+    | prot lm pm =>
+      cases lm
+      · simp only []
+        rw [hrec sl (List.mem_of_getElem? hi) hg _ _ hst]
+      · simp [hst, isUnlockedSt] at hus
+  have hlt : i < s.slots.length := by
+    rcases Nat.lt_or_ge i s.slots.length with h1 | h1
+    · exact h1
+    · rw [List.getElem?_eq_none h1] at hi; simp at hi
+  have hm : dryocMlock c (resetRel s).m (ptr c sl.o.v) sl.o.v.len =
+      (failedLock c (resetRel s).m
+        (mlockK c.P (madviseK c.P s.m.k (ptr c sl.o.v) sl.o.v.len true) (ptr c sl.o.v) sl.o.v.len).1
+        (ptr c sl.o.v) sl.o.v.len, false) := by
+    have hor' : (resetRel s).m.oracle ((resetRel s).m.cnt + 1) = .failFlagged := hor
+    unfold dryocMlock
+    rw [if_neg (show sl.o.v.len ≠ 0 by omega)]
+    simp only [hor']
+    rfl
+  have hstep : step c s ⟨.lock, i⟩ = opLock c (resetRel s) i := rfl
+  rw [hstep, opLock_eq (s := resetRel s) hi hg hus]
+  unfold doLock lockV
+  simp only [hm, Bool.false_eq_true, if_false]
+  refine ⟨trivial, by simp [setSlot, resetRel, hlt], fun p h1 h2 => ?_⟩
+  simp only [setSlot]
+  rw [hrcu, protDrop_unlocked_locked]
+  simp only [failedLock, hu, Bool.false_eq_true, if_false, ptr_eq]
+  rw [mlockK_locked hP]; simp [h1, h2]
+
+/-- `mlock` on a non-empty region whose data pages are `PROT_NONE` fails, whatever the oracle answers: refused, or
+failing in the kernel (the pages cannot be populated) -/
+theorem dryocMlock_na_fails {c : Cfg} (hP : 0 < c.P) {m : Mach} {v : PVec} {dl : Bool} {R : List Blk}
+    (g : GoodL c.P m.k (⟨v, .none, dl⟩ :: R)) (hl : 0 < v.len) : (dryocMlock c m (ptr c v) v.len).2 = false := by
+  have ho := g.ok _ (List.mem_cons_self)
+  unfold dryocMlock
+  rw [if_neg (by omega)]
+  simp only []
+  cases hor : m.oracle (m.cnt + 1) with
+  | grant =>
+    simp only [mlockK_madvise_snd]
+    by_cases hk : (mlockK c.P m.k (ptr c v) v.len).2 = true
+    · exfalso
+      rw [ptr_eq, mlockK_ok_iff hP] at hk
+      have hpos := pagesOf_pos hP hl
+      have hd := ho.data (v.base + 1) (Nat.le_refl _) (by simp only []; omega)
+      exact hk (v.base + 1) (Nat.le_refl _) (by omega) hd.1
+    · simp [hk]
+  | refuse => rfl
+  | failFlagged => rfl
+
+/-- **`lock` on a non-empty `NoAccess` region always answers `err`** (state satisfying `Inv`, any oracle): the kernel
+model never reaches "`PROT_NONE` and locked" for a non-empty region, although the table (`permits … .lock`) offers
+the transition for `pm = NoAccess` -/
+theorem lock_na_errs {c : Cfg} (hP : 0 < c.P) {s : State} (h : Inv c s) {i : Nat} {sl : Slot}
+    (hi : s.slots[i]? = some sl) (hg : sl.gone = false) (hl : 0 < sl.o.v.len)
+    (hst : sl.o.st = .prot .unlocked .na) : (step c s ⟨.lock, i⟩).1 = .err := by
+  have hi' : (resetRel s).slots[i]? = some sl := hi
+  obtain ⟨l1, l2, hs, _⟩ := slot_split hi
+  have g := good_head (s := resetRel s) hs hg h.resetRel.k
+  simp only [blkOf, hst, stPerm, PM.perm] at g
+  have hf := dryocMlock_na_fails hP g hl
+  show (opLock c (resetRel s) i).1 = .err
+  rw [opLock_eq (s := resetRel s) hi' hg (by rw [hst]; rfl)]
+  unfold doLock lockV
+  simp [hf]
 
 /-! ### failed constructors -/
 
@@ -185,8 +265,8 @@ theorem same_slots_same_kernel {c : Cfg} {s s' : State} (h : Inv c s) (ht : Tigh
 /-- a token that answers `err` and is not `lock` (a failed constructor: `fsl`, `fsro`, `newlocked`,
 `genlocked`, `newrolocked`, `genrolocked`, `stacklock`, `serde`) leaves the slots AND every page of the kernel as
 they were: the half-built region has been unlocked, made `rw` and released -/
-theorem err_create_kernel {c : Cfg} (hP : 0 < c.P) {s : State} (h : Inv c s) (ht : Tight c s) (t : Tok)
-    (hop : t.op ≠ .lock) (he : (step c s t).1 = .err) :
+theorem err_create_kernel {c : Cfg} (hP : 0 < c.P) {s : State} (h : Inv c s) (ht : Tight c s)
+    (hl : Leakless c s.m) (t : Tok) (hop : t.op ≠ .lock) (he : (step c s t).1 = .err) :
     (step c s t).2.slots = s.slots ∧
     (∀ p, (step c s t).2.m.k.perm p = s.m.k.perm p ∧ (step c s t).2.m.k.locked p = s.m.k.locked p) ∧
     lockedPages (step c s t).2.m.k = lockedPages s.m.k := by
@@ -195,7 +275,7 @@ theorem err_create_kernel {c : Cfg} (hP : 0 < c.P) {s : State} (h : Inv c s) (ht
     · exact h1
     · exact absurd h1 hop
   have hinv := inv_step hP h t (fun hh => zeroize_not_err c s t he hh.1)
-  have htight := tight_step hP h ht t (Or.inr (fun hl => hop hl.1))
+  have htight := tight_step hP h ht t (hl.imp id (fun hn => ⟨fun hl => hop hl.1, hn⟩))
   exact ⟨hslots, same_slots_same_kernel h ht hinv htight hslots⟩
 
 /-- the release log of a failed creation: exactly the block of the container that could not be locked -/
